@@ -145,6 +145,8 @@ def scenario_handover(r, mask_old=None, mask_new=None, strategy="native", policy
     objs, _ = gen_objects(r, ons, nph, dense=True)
     mask_old = mask_old if mask_old is not None else [r.random() < 0.5 for _ in range(nph)]
     mask_new = mask_new if mask_new is not None else [r.random() < 0.5 for _ in range(nph)]
+    if strategy == "annot" and r.random() < 0.75:
+        mask_new = list(mask_old)   # hosted clusters: a phase is delegated in every revision or in none
     objs2 = copy.deepcopy(objs)
     for ph in objs2:
         for o in ph:
@@ -192,6 +194,24 @@ def scenario_handover3(r, mask_mid=None, strategy="native", policy=None):
                        "targets": [tgt(s8), tgt(s9), tgt(s10)], "policy": policy, "seed": seed + 3})
     return {"family": "handover3", "force": False, "strategy": strategy, "store": [], "sets": sl.sort_sets([s8, s9, s10]), "phases": [],
             "nss": [[1, 0]] if ons else [], "next_rv": 50, "next_uid": 60, "kubelet": True, "stages": stages, "twin": strategy == "native"}
+
+
+def scenario_prev_deleted(r, strategy="native"):
+    """Revision 10 (previous = [8, 9]) reconciles once - the pass ends with the error of the pass that creates a phase
+    object, after its in-process phase 1 was written - then the previous revision with the highest number (9) is
+    deleted and goes away; revision 10 reconciles again: its revision must not be recomputed lower."""
+    sc = scenario_handover3(r, mask_mid=[False, False], strategy=strategy, policy="rr")
+    s8, s9, s10 = [[s for s in sc["sets"] if s["name"] == n][0] for n in (8, 9, 10)]
+    for ph, cl in zip(s10["phases"], (False, True)):
+        ph["class"] = cl
+    st = sc["stages"]
+    sc["stages"] = [st[0], st[1],
+                    {"targets": [tgt(s10)], "policy": "explicit", "explicit": [{"actor": "set", "target": tgt(s10)}]},
+                    {"ops": [{"op": "delete", "target": tgt(s9)}], "targets": [tgt(s8), tgt(s9)], "policy": "rr"},
+                    {"targets": [tgt(s8), tgt(s10)], "policy": "rr"}]
+    sc["family"] = "prev-deleted"
+    sc["twin"] = False
+    return sc
 
 
 def scenario_recreated(r, mask_old=None, strategy="native", policy=None):
@@ -293,6 +313,37 @@ def scenario_states(r, strategy="native"):
             "kubelet": False, "stages": [{"targets": [tgt(t)], "policy": "explicit", "explicit": explicit}], "twin": False}
 
 
+def scenario_hosted(r, cluster, teardown):
+    """Hosted-cluster mode (multi-cluster constructors, two clusters): members of a delegated phase that exist on the
+    target cluster but are missing from the dynamic cache (cache label stripped / not yet labelled). Rollout: the
+    member is controlled by a NEWER revision's phase object and carries its higher revision: the fallback read on the
+    target cluster finds it and the pass stays away. Teardown: the phase object is being deleted and still controls
+    the uncached member: the read on the target cluster finds it and it is deleted before the finalizer goes."""
+    okind, ons, pkind = (2, 0, 4) if cluster else (1, 1, 3)
+    objs = [pl.mk_pobj(1, 1 if cluster else 0, 1, body=1), pl.mk_pobj(2, 1 if cluster else 0, 2, body=1)]
+    rev = 1
+    t = sl.mk_set(okind, ons, 10, 100, rv=5, phases=[{"name": 1, "class": True, "objects": objs}], revision=rev,
+                  remotes=[[join_name(10, 1), 300]])
+    po = mk_phase_obj(pkind, ons, join_name(10, 1), 300, rv=20, gen=1, owners=[[okind, 10, 100, 1]], revision=rev, objects=objs,
+                      conds=[[0, 1, 1, 1]])
+    store = []
+    for i, o in enumerate(objs):
+        m = pl.mk_obj(o["gk"], 1, o["name"], 7 + 2 * i, 8 + 2 * i, body=1, avail=1, obsgen=1, cache=(i == 1 and r.random() < 0.5))
+        if teardown:
+            m["rev"], m["aowners"] = rev, [[pkind, join_name(10, 1), 300, 1]]
+        else:
+            m["rev"], m["aowners"] = rev + 1, [[pkind, join_name(11, 1), 310, 1]]
+        store.append(m)
+    if teardown:
+        po["deleting"] = True
+        t["deleting"] = True
+    ptgt = {"kind": pkind, "ns": ons, "name": po["name"], "uid": po["uid"]}
+    explicit = [{"actor": "phase", "target": ptgt}, {"actor": "set", "target": tgt(t)}, {"actor": "phase", "target": ptgt}]
+    return {"family": "hosted", "force": False, "strategy": "annot", "store": store, "sets": [t], "phases": [po],
+            "nss": [[1, 0]] if ons else [], "next_rv": 50, "next_uid": 400, "kubelet": False,
+            "stages": [{"targets": [tgt(t)], "policy": "explicit", "explicit": explicit}], "twin": False}
+
+
 def scenario_clash(strategy="native"):
     """ObjectSet "n3-p2" with phase "p5" and ObjectSet "n3" with phase "p2-p5": both name their phase object
     "n3-p2-p5" (ObjectSet.join_name 3002 5 = join_name 3 2005)."""
@@ -304,6 +355,23 @@ def scenario_clash(strategy="native"):
                        {"ops": [{"op": "delete", "target": tgt(b)}], "targets": [tgt(a), tgt(b)], "policy": "rr"}], "twin": False}
 
 
+def place(sc):
+    """Two-cluster runs (strategy "annot") keep a member key on one cluster: the target cluster iff a delegated phase
+    lists it. A scenario in which one revision handles a key in-process and another one delegates it would be about
+    two different objects on two clusters; such scenarios run the multi-cluster constructors on one cluster."""
+    if sc["strategy"] != "annot":
+        return sc
+    seen = {}
+    for s_ in sc["sets"]:
+        for ph in s_["phases"]:
+            for o in ph["objects"]:
+                k = (o["gk"], o["ns"] or s_["ns"], o["name"])
+                seen.setdefault(k, set()).add(bool(ph["class"]))
+    if any(len(v) > 1 for v in seen.values()):
+        sc["one_cluster"] = True
+    return sc
+
+
 def masks(n):
     return [list(m) for m in itertools.product([False, True], repeat=n)]
 
@@ -311,6 +379,10 @@ def masks(n):
 def gen(seed, tier):
     r = vlib.rng(seed, "C15")
     scs = [scenario_clash()]
+    for cluster in (True, False):
+        for teardown in (False, True):
+            scs.append(scenario_hosted(r, cluster, teardown))
+    scs.append(scenario_prev_deleted(r))
     # every subset of phases delegated, 1-3 phases, round-robin and random schedules, both strategies
     for nph in (1, 2, 3):
         for m in masks(nph):
@@ -340,4 +412,4 @@ def gen(seed, tier):
         scs.append(scenario_handover(r, strategy="annot" if i % 5 == 4 else "native"))
     for i in range(n_states):
         scs.append(scenario_states(r, strategy="annot" if i % 4 == 3 else "native"))
-    return scs
+    return [place(sc) for sc in scs]
